@@ -12,10 +12,14 @@ def groups():
         base = ['-DVF_RB'] if rb else []
         for first in range(3):
             for ln, tier in ((3, 'quick'), (4, 'thorough')):
-                G.append(Group('%s.b.seq.len%d.first%d' % (name, ln, first), props, 'B', S, 'h_b_seq', sources=src,
-                               defines=base + ['-DVF_B=1', '-DVF_LEN=%d' % ln, '-DVF_FIRST=%d' % first], unwind=90, tier=tier, timeout=1500,
-                               what='%s: every insertion sequence (hinted and unhinted) of length <= %d over keys {0,1,2} starting with key %d; invariant after every insert; find of every key; erase of every key (twice) + re-insert' % (name, ln, first),
-                               scope='trees of <= %d nodes (+1 re-inserted), keys {0,1,2}, duplicates included' % ln, replay=True))
+                # the length-4 scope is split by the second key as well (one rbtree group took > 25 min)
+                for second in ((None,) if ln == 3 else (0, 1, 2)):
+                    sfx = '' if second is None else '.second%d' % second
+                    sd = [] if second is None else ['-DVF_SECOND=%d' % second]
+                    G.append(Group('%s.b.seq.len%d.first%d%s' % (name, ln, first, sfx), props, 'B', S, 'h_b_seq', sources=src,
+                                   defines=base + ['-DVF_B=1', '-DVF_LEN=%d' % ln, '-DVF_FIRST=%d' % first] + sd, unwind=90, tier=tier, timeout=2400,
+                                   what='%s: every insertion sequence (hinted and unhinted) of length <= %d over keys {0,1,2} starting with key %d%s; invariant after every insert; find of every key (result and parent output); erase of every key (twice) + re-insert' % (name, ln, first, '' if second is None else ', second key %d' % second),
+                                   scope='trees of <= %d nodes (+1 re-inserted), keys {0,1,2}, duplicates included' % ln, replay=True))
                 G.append(Group('%s.b.walk.len%d.first%d' % (name, ln, first), ['C01', 'C15'], 'B', S, 'h_b_walk', sources=src,
                                defines=base + ['-DVF_B=3', '-DVF_LEN=%d' % ln, '-DVF_FIRST=%d' % first], unwind=90, tier=tier, timeout=1500,
                                what='%s: forward/reverse traversal bracket structure, order and early stop at every visit; clear hands over each element once and leaves an empty reusable tree; trees from sequences of length <= %d starting with key %d' % (name, ln, first),
